@@ -4,8 +4,16 @@
 def register(add):
     DV, UT = 'src/dv/relic_dv_util.c', 'src/relic_util.c'
     base = dict(headers=['ct_monitor.h'], conf='base', route='proof', loops=True, branch='ct_branch',
-                expect=('postcondition', 'assigns'), pre='g_ct_on = 1;')
+                expect=('postcondition', 'assigns'), pre='g_ct_on = 1;', arb_weave=True)
     add('dv_copy_sec', ['C20'], 'dv_copy_sec', sources=[DV], decls='dig_t *c; const dig_t *a; size_t n; dig_t bit;', call='dv_copy_sec(c, a, n, bit)', **base)
     add('dv_swap_sec', ['C20'], 'dv_swap_sec', sources=[DV], decls='dig_t *c, *a; size_t n; dig_t bit;', call='dv_swap_sec(c, a, n, bit)', **base)
     add('dv_cmp_sec', ['C20'], 'dv_cmp_sec', sources=[DV], decls='const dig_t *a, *b; size_t n;', call='dv_cmp_sec(a, b, n)', **base)
     add('util_cmp_sec', ['C20'], 'util_cmp_sec', sources=[UT], decls='const void *a, *b; size_t n;', call='util_cmp_sec(a, b, n)', **base)
+    E = lambda f, s: '%s/%s_%s' % (f, f, s)
+    add('ep_mul_monty', ['C20'], 'ep_mul_monty', sources=['src/ep/relic_ep_mul.c', 'src/bn/relic_bn_mem.c'], headers=['ct_ladder.h', 'ct_ladder_state.h'],
+        conf='base', route='proof', loops=True, unwind=40, flags=['--object-bits', '10'], timeout=900,
+        decls='ep_st *r, *p; bn_st *k;', call='ep_mul_monty(r, p, k)',
+        replace=[E('dv_swap_sec', 'ev'), E('ep_norm', 'ev'), E('ep_dbl_projc', 'ev'), E('ep_add_projc', 'ev'), E('ep_blind', 'ev'), E('bn_get_bit', 'a'),
+                 E('bn_is_zero', 'a'), E('ep_is_infty', 'a'), E('bn_bits', 'a'), E('ep_curve_get_ord', 'a'), E('bn_mod_basic', 'a'), E('bn_abs', 'a'), E('bn_add', 'a')],
+        note='group-level event monitor; callees abstract and trusted to be constant-time as units; pre: k != 0, p != infinity',
+        bound_note='all bit lengths 1..1024 of the group order: the ladder loop is closed by a loop contract')
